@@ -302,8 +302,8 @@ theorem floatRound_exact (w p : Nat) (hw : WidthOK w) (hp : p ≤ maxPrecision w
   floatProdToDec_exact w p hw hp neg m e
 
 /-- NaN and ±∞ never convert -/
-theorem floatNonFinite_none (w p : Nat) : floatProdToDec w p .nan = none ∧
-    ∀ n, floatProdToDec w p (.inf n) = none := ⟨rfl, fun _ => rfl⟩
+theorem floatNonFinite_none (w p : Nat) : (∀ n, floatProdToDec w p (.nan n) = none) ∧
+    ∀ n, floatProdToDec w p (.inf n) = none := ⟨fun _ => rfl, fun _ => rfl⟩
 
 /-- **Float → integer**: truncation toward zero, representable iff inside the target range. -/
 theorem floatToInt_exact (lo hi : Int) (neg : Bool) (m : Nat) (e : Int) :
@@ -316,5 +316,59 @@ example : floatToDec 128 20 0 (decodeF 11 52 4841369599423283201) = some 4503599
     floatToDec 128 20 0 (decodeF 11 52 4602678819172646911) = some 0 ∧
     floatToDec 128 20 0 (decodeF 11 52 4612811918334230528) = some 3 ∧
     floatToDec 128 20 0 (decodeF 11 52 13836183955189006336) = some (-3) := by decide
+
+
+/-! ## 7. tie to the source text -/
+
+/-- **Every constant and every critical expression the theorems above are about is still
+present in `/repo` verbatim** (regenerated by `tools/translate.py` on every run): the decimal
+tables and limits, and the *shape* of the guards (`is_infallible_cast`, the half-away rounding
+arms, `(mul * input).round()`, the safe/strict closures of `cast_integer_to_decimal`,
+`unary_opt` / `try_unary`, `num_cast`, the unit-change arms, `parser_primitive!`,
+`is_validate_decimal_precision`).  An edit of any of them makes the item LOST and this
+obligation fail, which sends the check into its search mode. -/
+theorem source_shapes_present :
+    (SHAPE_UPSCALE_INFALLIBLE_lost ||
+     SHAPE_UPSCALE_FALLIBLE_lost ||
+     SHAPE_DOWNSCALE_ROUND_lost ||
+     SHAPE_DOWNSCALE_INFALLIBLE_lost ||
+     SHAPE_DOWNSCALE_HALF_lost ||
+     SHAPE_APPLY_DECIMAL_CAST_lost ||
+     SHAPE_SAME_TYPE_SHORTCUT_lost ||
+     SHAPE_FLOAT_TO_DECIMAL_lost ||
+     SHAPE_FLOAT_MUL_lost ||
+     SHAPE_DEC_TO_INT_DIV_lost ||
+     SHAPE_INT_TO_DEC_SAFE_lost ||
+     SHAPE_INT_TO_DEC_STRICT_lost ||
+     SHAPE_INT_TO_DEC_DISPATCH_lost ||
+     SHAPE_NUMERIC_CAST_lost ||
+     SHAPE_NUM_CAST_lost ||
+     SHAPE_NUMERIC_UNARY_OPT_lost ||
+     SHAPE_TS_UNIT_CHANGE_lost ||
+     SHAPE_DATE64_TS_CHECKED_lost ||
+     SHAPE_UNARY_OPT_lost ||
+     SHAPE_TRY_UNARY_lost ||
+     SHAPE_PARSER_PRIMITIVE_lost ||
+     SHAPE_VALID_PRECISION_lost ||
+     MAX_DECIMAL32_lost ||
+     MIN_DECIMAL32_lost ||
+     MAX_DECIMAL64_lost ||
+     MIN_DECIMAL64_lost ||
+     MAX_DECIMAL128_lost ||
+     MIN_DECIMAL128_lost ||
+     DECIMAL256_TABLE_LEN_lost ||
+     DECIMAL32_MAX_PRECISION_lost ||
+     DECIMAL64_MAX_PRECISION_lost ||
+     DECIMAL128_MAX_PRECISION_lost ||
+     DECIMAL256_MAX_PRECISION_lost ||
+     DECIMAL32_MAX_SCALE_lost ||
+     DECIMAL64_MAX_SCALE_lost ||
+     DECIMAL128_MAX_SCALE_lost ||
+     DECIMAL256_MAX_SCALE_lost ||
+     MAX_CHUNK_DIGITS_lost ||
+     MILLISECONDS_lost ||
+     MICROSECONDS_lost ||
+     NANOSECONDS_lost ||
+     SECONDS_IN_DAY_lost) = false := by decide
 
 end ArrowModel.C13
